@@ -339,11 +339,13 @@ func runRLLB(x *X) {
 	// (first X-Forwarded-For element, then X-Real-IP, then the peer address)
 	// the client under test and its nearest neighbours (addresses that differ in the last group
 	// only must still be different clients), in IPv4 and IPv6 spellings
-	fam := c.Intn(3, "addr-family")
-	K := []string{"203.0.113.77", "2001:db8::1", "2001:db8:0:7:a:b:c:d1"}[fam]
-	N1 := []string{"203.0.113.78", "2001:db8::2", "2001:db8:0:7:a:b:c:d2"}[fam]
-	N2 := []string{"203.0.113.7", "2001:db8::11", "2001:db8:0:7:a:b:c:d"}[fam]
-	N3 := []string{"203.0.113.177", "2001:db8::1:1", "2001:db8:0:7:a:b:c:1d1"}[fam]
+	// (the last two families are long spellings: a fully written IPv4-mapped address, a
+	// link-local address with a long zone -- neighbours agree in everything but the tail)
+	fam := c.Intn(5, "addr-family")
+	K := []string{"203.0.113.77", "2001:db8::1", "2001:db8:0:7:a:b:c:d1", "0000:0000:0000:0000:0000:ffff:192.168.100.101", "fe80::1234:5678:9abc:def0%enp0s31f6-vlan100"}[fam]
+	N1 := []string{"203.0.113.78", "2001:db8::2", "2001:db8:0:7:a:b:c:d2", "0000:0000:0000:0000:0000:ffff:192.168.100.102", "fe80::1234:5678:9abc:def0%enp0s31f6-vlan101"}[fam]
+	N2 := []string{"203.0.113.7", "2001:db8::11", "2001:db8:0:7:a:b:c:d", "0000:0000:0000:0000:0000:ffff:192.168.100.10", "fe80::1234:5678:9abc:def0%enp0s31f6-vlan10"}[fam]
+	N3 := []string{"203.0.113.177", "2001:db8::1:1", "2001:db8:0:7:a:b:c:1d1", "0000:0000:0000:0000:0000:ffff:192.168.100.201", "fe80::1234:5678:9abc:def0%enp0s31f6-vlan200"}[fam]
 	x.Sample["client"] = K
 	type probeReq struct {
 		label    string
